@@ -278,8 +278,8 @@ class Model:
             return ok
         if ctx.get('start') is not None and self.obs_left(ctx, n) and n in ctx['start'].R and ctx['start'].R[n].built \
                 and ctx['start'].rounds_needed(n) >= 2:
-            # Parallel command: n was judged while two nested levels of checksummed targets below it were still
-            # undecided.  After one out-of-band round redo runs n itself (as in the serial case, see settle());
+            # n was judged while two nested levels of checksummed targets below it were still undecided (parallel command,
+            # or a different order of looking at dependencies than this model's).  After one out-of-band round redo runs n itself (as in the serial case, see settle());
             # in this model's sequential order a sibling had settled the lower level first.  Order-dependent: may-run.
             ctx['maybe'].add(n)
             ctx['unsettled_overbuild'].add(n)      # it did turn out clean: an over-build owed to the single out-of-band round
@@ -522,7 +522,8 @@ class Model:
 
     def command(self, targets, forced=False, keep=False, obs=None, obsn=None, parallel=False, abort_mode=False):
         """One top-level `redo-ifchange targets...` (or `redo` when forced).  Returns (ok, ctx)."""
-        start = self.copy() if (parallel and obs is not None) else None
+        # (also for serial commands: the order in which redo looks at the dependencies of one target is a hash order)
+        start = self.copy() if obs is not None else None
         self.run += 1
         ctx = self.new_ctx(keep, obs)
         ctx['obsn'] = obsn
